@@ -21,10 +21,16 @@ let note_distinct (s : string) (nontrivial : bool) =
     if nontrivial then incr distinct
   end
 let total = ref 0
-let report kind detail line = Printf.printf "CASE\t%s\t%s\t%s\n" kind detail line
+let kinds : (string, int) Hashtbl.t = Hashtbl.create 16
+(* at most 20 CASE lines per kind and process are printed; all are counted (COUNT lines) *)
+let report kind detail line =
+  let n = (try Hashtbl.find kinds kind with Not_found -> 0) in
+  Hashtbl.replace kinds kind (n + 1);
+  if n < 20 then Printf.printf "CASE\t%s\t%s\t%s\n" kind detail line
 let summary () =
   Printf.printf "SUMMARY\tn=%d\tdistinct_nontrivial=%d\n" !total !distinct;
-  Hashtbl.iter (fun k v -> Printf.printf "HISTO\t%s\t%d\n" k v) histo
+  Hashtbl.iter (fun k v -> Printf.printf "HISTO\t%s\t%d\n" k v) histo;
+  Hashtbl.iter (fun k v -> Printf.printf "COUNT\t%s\t%d\n" k v) kinds
 let samples = ref 0
 let sample line = if !samples < 5 && (!total mod 997 = 1 || !total < 3) then begin incr samples; Printf.printf "SAMPLE\t%s\n" line end
 let iter_lines f =
